@@ -112,14 +112,15 @@ def str_tree():
         "plain": (lambda: var("w", "[a-z0-9%$.][a-z0-9%$.+*-]*"), "same", set()),
     }
     for cid, (mk, want, want_rm) in cases.items():
-        for body_kind in ("str", "list"):
+        for body_kind in ("str", "esc", "list"):
             if body_kind == "list" and cid.startswith("inside"):
                 continue      # a list-pattern macro cannot be used inside a name (the expander raises)
+            BODY = "BODY" if body_kind != "esc" else "B\\dY\\b\\1"      # a body holding regex escapes is copied literally
 
             def fn():
                 t = mk()
                 rm: set = set()
-                body: Any = "BODY" if body_kind == "str" else [Opaque("body0")]
+                body: Any = BODY if body_kind != "list" else [Opaque("body0")]
                 r = J.mexp.MacroExpander()._apply_macro_recursively(macro=_macro(body), tree=t, rule_macros=rm)
                 return [r, rm, t]
             try:
@@ -139,11 +140,11 @@ def str_tree():
                     ok = isinstance(r, str) and str.__str__(r) == str.__str__(t)
                     st = "a string that does not mention the macro is returned unchanged"
                 elif want == "body":
-                    ok = (r == "BODY") if body_kind == "str" else (isinstance(r, Opaque) and r.ident == "body0")
+                    ok = (r == BODY) if body_kind != "list" else (isinstance(r, Opaque) and r.ident == "body0")
                     st = "a string equal to the macro name is replaced by the body (list pattern: its single element)"
                 else:
-                    ok = isinstance(r, str) and c.table.show(str.__str__(r)) == want
-                    st = "a string macro used inside a name is replaced textually, the rest of the name is kept"
+                    ok = isinstance(r, str) and c.table.show(str.__str__(r)) == want.replace("BODY", BODY)
+                    st = "a string macro used inside a name is replaced textually (the body is copied literally), the rest of the name is kept"
                 obs.append(simple_ob(base + ":POST", func, "POST", f"[{cid}] {st}", ok, P13, detail=repr(r) if not isinstance(r, str) else c.table.show(str.__str__(r)),
                                      witness=cid))
                 shown_rm = set("self" if isinstance(x, str) and str.__str__(x) == str.__str__(t) else repr(x) for x in rm)
